@@ -103,17 +103,13 @@ StreamsManagerBase<MAX_STREAMS> {
     pub fn wake_stream(&self, stream_id: u32) {
         #[cfg(feature = "verif")] crate::verif::yield_point("sm.wake.read_slot");
         let wakers = unsafe { &* self.wakers.get() };
-        match unsafe {wakers.get_unchecked(stream_id as usize)} {
-            Some(waker) => waker.wake_by_ref(),
-            None => {
-                // try again, syncing
-                ogre_sync::lock(&self.wakers_lock);
-                if let Some(waker) = unsafe {wakers.get_unchecked(stream_id as usize)} {
-                    waker.wake_by_ref();
-                }
-                ogre_sync::unlock(&self.wakers_lock);
-            }
+        // always sync: the slot may be written by `register_stream_waker()` / `report_stream_dropped()` at this very moment
+        // (reading it without the lock may see a half-written waker, or one that is being dropped)
+        ogre_sync::lock(&self.wakers_lock);
+        if let Some(waker) = unsafe {wakers.get_unchecked(stream_id as usize)} {
+            waker.wake_by_ref();
         }
+        ogre_sync::unlock(&self.wakers_lock);
     }
 
     /// Wakes all streams -- suitable for EOL procedures
